@@ -1042,3 +1042,217 @@ Proof.
   destruct (orient_cases m v (fst (read_role role)) (AStr s) (mem atom_eqb (AStr s) vars))
     as [E|(E & _)]; rewrite E; reflexivity.
 Qed.
+
+(* ------------------------------------------------------------------ *)
+(** * Looking a triple up in the epigraph *)
+
+Fixpoint nodupE (l : list item) : Prop :=
+  match l with
+  | [] => True
+  | x :: r => (forall y, In y r -> triple_eqb (i_triple y) (i_triple x) = false) /\ nodupE r
+  end.
+
+Lemma nodupE_filter : forall p l, nodupE l -> nodupE (filter p l).
+Proof.
+  intros p l. induction l as [|x l IH]; intros H; [exact I|].
+  destruct H as [H1 H2]. simpl. destruct (p x).
+  - split; [|apply IH; exact H2]. intros y Hy. apply filter_In in Hy. apply H1. tauto.
+  - apply IH. exact H2.
+Qed.
+
+Lemma firsts_nodupE : forall its, nodupE (firsts its).
+Proof.
+  induction its as [|x its IH]; [exact I|]. cbn [firsts]. split.
+  - intros y Hy. apply filter_In in Hy. destruct Hy as [_ Hy].
+    apply negb_true_iff in Hy. exact Hy.
+  - apply nodupE_filter. exact IH.
+Qed.
+
+Lemma dget_nodupE : forall l it, nodupE l -> In it l ->
+  dget triple_eqb (i_triple it) (map item_entry l) = Some (item_markers it).
+Proof.
+  induction l as [|x l IH]; intros it N H; [contradiction|].
+  destruct N as [N1 N2]. cbn [map dget item_entry]. unfold item_entry at 1.
+  destruct H as [H|H].
+  - subst x. rewrite triple_eqb_refl. reflexivity.
+  - rewrite (N1 _ H). apply IH; assumption.
+Qed.
+
+Lemma filter_length_le : forall (A : Type) (p : A -> bool) l, length (filter p l) <= length l.
+Proof. intros A p l. induction l as [|x l IH]; simpl; [lia|]. destruct (p x); simpl; lia. Qed.
+
+Lemma filter_length_eq : forall (A : Type) (p : A -> bool) l,
+  length (filter p l) = length l -> filter p l = l.
+Proof.
+  intros A p l. induction l as [|x l IH]; intros H; [reflexivity|].
+  simpl in *. destruct (p x); simpl in *.
+  - f_equal. apply IH. lia.
+  - pose proof (filter_length_le A p l). lia.
+Qed.
+
+Lemma firsts_length_le : forall its, length (firsts its) <= length its.
+Proof.
+  induction its as [|x its IH]; [simpl; lia|]. cbn [firsts length].
+  pose proof (filter_length_le _ (fun y => negb (triple_eqb (i_triple y) (i_triple x))) (firsts its)).
+  lia.
+Qed.
+
+Lemma firsts_distinct : forall its, distinct_triples its = true -> firsts its = its.
+Proof.
+  unfold distinct_triples. induction its as [|x its IH]; intros H; [reflexivity|].
+  apply Nat.eqb_eq in H. cbn [firsts length] in *.
+  pose proof (filter_length_le _ (fun y => negb (triple_eqb (i_triple y) (i_triple x))) (firsts its)) as L1.
+  pose proof (firsts_length_le its) as L2.
+  assert (E1 : length (firsts its) = length its) by lia.
+  rewrite (IH (proj2 (Nat.eqb_eq _ _) E1)) in *.
+  f_equal. apply filter_length_eq. lia.
+Qed.
+
+Lemma distinct_nodupE : forall its, distinct_triples its = true -> nodupE its.
+Proof. intros its H. rewrite <- (firsts_distinct its H). apply firsts_nodupE. Qed.
+
+Lemma epis_of_reading : forall r meta it, In it (firsts (r_items r)) ->
+  epis_of (reading_graph r meta) (i_triple it) = item_markers it.
+Proof.
+  intros r meta it H. unfold epis_of, reading_graph. cbn [epidata].
+  rewrite (dget_nodupE _ _ (firsts_nodupE _) H). reflexivity.
+Qed.
+
+Lemma filter_app' : forall (A : Type) (p : A -> bool) a b, filter p (a ++ b) = filter p a ++ filter p b.
+Proof. intros A p a b. induction a as [|x a IH]; [reflexivity|]. simpl. destruct (p x); simpl; rewrite IH; reflexivity. Qed.
+
+Lemma pops_of_markers : forall it, filter is_pop (item_markers it) = repeat Pop (i_closes it).
+Proof.
+  intros it. unfold item_markers. rewrite !filter_app'.
+  destruct (i_ralign it) as [[i1 p1]|], (i_talign it) as [[i2 p2]|], (i_opened it); cbn [filter is_pop app];
+    induction (i_closes it) as [|k IH]; try reflexivity; simpl; rewrite IH; reflexivity.
+Qed.
+
+Lemma push_of_markers : forall it,
+  find is_push (item_markers it) = option_map Push (i_opened it).
+Proof.
+  intros it. unfold item_markers.
+  assert (P : forall k, find is_push (repeat Pop k) = None).
+  { induction k as [|k IH]; [reflexivity|]. exact IH. }
+  destruct (i_ralign it) as [[i1 p1]|], (i_talign it) as [[i2 p2]|], (i_opened it);
+    cbn [find is_push app option_map]; try reflexivity; apply P.
+Qed.
+
+(* Push/POP are balanced: every nested node is opened once and closed once *)
+Definition opens (it : item) : nat := match i_opened it with Some _ => 1 | None => 0 end.
+Fixpoint sum (l : list nat) : nat := match l with [] => 0 | x :: r => x + sum r end.
+Lemma sum_app : forall a b, sum (a ++ b) = sum a + sum b.
+Proof. induction a as [|x a IH]; intros b; simpl; [reflexivity|]. rewrite IH. lia. Qed.
+
+Definition cn_branch (b : branch) : nat :=
+  match snd b with TAtom _ => O | TNode n' => S (count_nested n') end.
+
+Lemma markers_balanced : forall m vars n k,
+  sum (map opens (node_items m vars n k)) = count_nested n /\
+  sum (map i_closes (node_items m vars n k)) = count_nested n + k.
+Proof.
+  intros m vars n. induction n as [v bs IHbs] using node_ind'. intros k.
+  assert (B : forall k,
+            sum (map opens (branch_items m vars v bs k)) = fold_right (fun b acc => cn_branch b + acc) 0 bs /\
+            sum (map i_closes (branch_items m vars v bs k)) =
+              fold_right (fun b acc => cn_branch b + acc) 0 bs + match bs with [] => 0 | _ => k end).
+  { clear k. induction IHbs as [|[role tgt] bs Hb Hbs IH]; intros k; [split; reflexivity|].
+    cbn [branch_items fold_right]. rewrite !map_app, !sum_app.
+    destruct (IH k) as [IH1 IH2]. rewrite IH1, IH2.
+    destruct tgt as [a|n'].
+    - change (cn_branch (role, TAtom a)) with 0. cbn [map sum opens atom_item i_opened i_closes].
+      destruct bs; split; lia.
+    - change (cn_branch (role, TNode n')) with (S (count_nested n')).
+      unfold branch_ok in Hb. cbn [snd] in Hb.
+      cbn [map sum]. unfold opens at 1. cbn [open_item i_opened i_closes].
+      destruct (Hb (S match bs with [] => k | _ :: _ => 0 end)) as [H1 H2]. rewrite H1, H2.
+      destruct bs; split; lia. }
+  rewrite node_items_eq. cbn [count_nested].
+  change (fold_right (fun (b : branch) acc => match snd b with TAtom _ => 0 | TNode n' => S (count_nested n') end + acc) 0 bs)
+    with (fold_right (fun b acc => cn_branch b + acc) 0 bs).
+  destruct (B k) as [B1 B2].
+  destruct (writes_concept bs) eqn:W.
+  - rewrite B1, B2. destruct bs; [discriminate|]. split; reflexivity.
+  - cbn [map sum]. rewrite B1, B2. unfold opens at 1. cbn [synth_item i_opened i_closes].
+    destruct bs; split; lia.
+Qed.
+
+(* ------------------------------------------------------------------ *)
+(** * Statements about the graph interpret returns *)
+
+Lemma interpret_ok_inv : forall m t g, interpret m t = Ok g ->
+  reading m t = Ok (reading_of m (troot t)) /\
+  g = reading_graph (reading_of m (troot t)) (tmeta t).
+Proof.
+  intros m t g H. rewrite interpret_is_reading_graph in H. unfold reading_as_graph, reading in *.
+  destruct (surface_check (troot t)); try discriminate. cbn [bind] in *.
+  inversion H. split; reflexivity.
+Qed.
+
+Lemma reading_ok_inv : forall m t r, reading m t = Ok r -> r = reading_of m (troot t).
+Proof.
+  intros m t r H. unfold reading in H.
+  destruct (surface_check (troot t)); try discriminate. cbn [bind] in H. inversion H. reflexivity.
+Qed.
+
+Lemma triple_count : forall m t g, interpret m t = Ok g ->
+  length (triples g) = count_branches (troot t) + count_conceptless (troot t).
+Proof.
+  intros m t g H. destruct (interpret_ok_inv _ _ _ H) as [_ E]. subst g.
+  unfold reading_graph, reading_of. cbn [triples r_triples]. rewrite map_length.
+  apply triple_count_items.
+Qed.
+
+Lemma noop_never_deinverts : forall m t g, deinverts m = false -> interpret m t = Ok g ->
+  triples g = map with_colon (written_triples (troot t)) /\
+  forall r it, reading m t = Ok r -> In it (r_items r) ->
+    i_winv it = false /\ tsrc (i_triple it) = i_ctx it.
+Proof.
+  intros m t g D H. destruct (interpret_ok_inv _ _ _ H) as [_ E]. subst g. split.
+  - unfold reading_graph, reading_of. cbn [triples r_triples].
+    rewrite <- (noop_reads_as_written m (defined_vars (troot t)) (troot t) 0 D), map_map. reflexivity.
+  - intros r it R Hit. apply reading_ok_inv in R. subst r. unfold reading_of in Hit. cbn [r_items] in Hit.
+    eapply noop_item_orientation; eauto.
+Qed.
+
+Lemma tilde_in_string_is_content : forall m t r it role s,
+  reading m t = Ok r -> In it (r_items r) ->
+  i_src it = Some (role, Some (AStr s)) -> complete_string s = true ->
+  i_talign it = None /\
+  (if i_winv it then tsrc (i_triple it) else ttgt (i_triple it)) = AStr s.
+Proof.
+  intros m t r it role s R Hit S C. apply reading_ok_inv in R. subst r.
+  unfold reading_of in Hit. cbn [r_items] in Hit. eapply string_item; eauto.
+Qed.
+
+Lemma layout_markers : forall m t r g, reading m t = Ok r -> interpret m t = Ok g ->
+  (forall it, In it (firsts (r_items r)) ->
+     epis_of g (i_triple it) = item_markers it /\
+     find is_push (epis_of g (i_triple it)) = option_map Push (i_opened it) /\
+     length (filter is_pop (epis_of g (i_triple it))) = i_closes it) /\
+  sum (map opens (r_items r)) = count_nested (troot t) /\
+  sum (map i_closes (r_items r)) = count_nested (troot t).
+Proof.
+  intros m t r g R H. apply reading_ok_inv in R. subst r.
+  destruct (interpret_ok_inv _ _ _ H) as [_ E]. subst g. split.
+  - intros it Hit. rewrite (epis_of_reading _ _ _ Hit).
+    rewrite pops_of_markers, push_of_markers, repeat_length. auto.
+  - unfold reading_of. cbn [r_items].
+    destruct (markers_balanced m (defined_vars (troot t)) (troot t) 0) as [B1 B2].
+    rewrite B1, B2. split; lia.
+Qed.
+
+(* the two views of "closing": handing k down = patching the last triple k times *)
+Lemma closes_land_on_last : forall m vars n k, exists init it,
+  node_items m vars n k = init ++ [it] /\
+  node_items m vars n (S k) = init ++ [inc_closes it].
+Proof.
+  intros m vars n k. rewrite node_items_bump.
+  pose proof (node_items_nonempty m vars n k) as NE.
+  induction (node_items m vars n k) as [|x l IH]; [contradiction|].
+  destruct l as [|y l].
+  - exists [], x. split; reflexivity.
+  - destruct IH as (init & it & E1 & E2); [discriminate|].
+    exists (x :: init), it. rewrite E1. split; [reflexivity|].
+    rewrite bump_cons by (rewrite <- E1; discriminate). rewrite <- E1, E2. reflexivity.
+Qed.
